@@ -713,8 +713,8 @@ func init() {
 				}
 				return s
 			}, Run: c11shapes},
-			{Name: "random", N: func(t vf.Tier) int { return t.Sz(6000, 60000) }, Run: c11random},
-			{Name: "filters", N: func(t vf.Tier) int { return t.Sz(20000, 250000) }, Run: c11filters},
+			{Name: "random", Shards: 8, N: func(t vf.Tier) int { return t.Sz(6000, 60000) }, Run: c11random}, // shards: bchd/wire serialises through one process-wide free list
+			{Name: "filters", Shards: 8, N: func(t vf.Tier) int { return t.Sz(20000, 250000) }, Run: c11filters},
 		},
 	})
 }
